@@ -89,6 +89,41 @@ pub fn c01_relation<D: LdpcDecoder, const N: usize>(mut dec: D, rows: &[&[usize]
     kani::cover!(res.is_err());
 }
 
+/// the same relation with a fixed iteration limit (the A-Min* decoders do not finish with a symbolic one)
+pub fn c01_relation_fixed<D: LdpcDecoder, const N: usize>(mut dec: D, rows: &[&[usize]], limit: usize) {
+    let llrs = any_llrs::<N>();
+    let res = dec.decode(&llrs, limit);
+    let mut signs = [0u8; N];
+    for k in 0..N {
+        signs[k] = (llrs[k] <= 0.0) as u8;
+    }
+    let sign_ok = parity_ok(rows, &signs);
+    match &res {
+        Ok(o) => {
+            assert!(o.codeword.len() == N);
+            assert!(parity_ok(rows, &o.codeword));
+            assert!(o.iterations <= limit);
+            assert!((o.iterations == 0) == sign_ok);
+            if o.iterations == 0 {
+                for k in 0..N {
+                    assert!(o.codeword[k] == signs[k]);
+                }
+            }
+        }
+        Err(o) => {
+            assert!(o.codeword.len() == N);
+            assert!(o.iterations == limit);
+            assert!(!sign_ok);
+            if limit >= 1 {
+                assert!(!parity_ok(rows, &o.codeword));
+            }
+        }
+    }
+    kani::cover!(matches!(&res, Ok(o) if o.iterations == 0));
+    kani::cover!(matches!(&res, Ok(o) if o.iterations >= 1));
+    kani::cover!(res.is_err());
+}
+
 fn same(a: &Result<DecoderOutput, DecoderOutput>, b: &Result<DecoderOutput, DecoderOutput>) -> bool {
     a == b
 }
@@ -199,6 +234,7 @@ macro_rules! hl8 {
 }
 
 include!("c01_names.rs");
+include!("c01_amin.rs");
 
 // a concrete playback test printed by Kani for a failing harness of this module is replayed from here
 include!(concat!(env!("VERIF_KANI_GEN"), "/playback_c01.rs"));
